@@ -15,6 +15,8 @@ from ..pathterms import PathT
 from ..terms import valida
 from . import schema_common as sc
 
+from .c15 import cast_doc, cross_cast
+
 PROP = "C18"
 IMPORTS = sc.IMPORTS
 THEOREMS = ["C18_frame", "C18_history", "C18_rules", "C18_concat", "C18_judgement", "C18_rebinding_refuted"]
@@ -37,10 +39,15 @@ def run(tier, seed, model_ok, spec_ok, replay=None):
     cases, viol = [], []
     dist = Counter()
     for i in range(n):
-        doc = g.document(4, 4)
-        s_terms = rg.schema(doc, g.r.randint(0, 3))
-        t_terms = rg.schema(doc, g.r.randint(1, 3), cast_p=0.2)
+        doc = cast_doc(g, 3) if i % 2 else g.document(4, 4)
+        s_terms = rg.schema(doc, g.r.randint(0, 3), cast_p=g.r.choice([0.0, 0.0, 0.3]))
         roots = [pg.path(doc, max_len=2, mods_p=0.0) for _ in range(g.r.choice([1, 1, 2, 3]))]
+        # T is written for what lies at the (first) root: its rules select something there, and its casts find strings to cast
+        at_root = [x for x in rg.selected(roots[0], doc) if isinstance(x, (list, dict)) and x]
+        sub = g.r.choice(at_root) if at_root and g.r.random() < 0.8 else doc
+        t_terms = rg.schema(sub, g.r.randint(1, 3), cast_p=0.4)
+        if g.r.random() < 0.2:
+            t_terms = cross_cast(g, rg, sub) or t_terms       # a later rule of T looks at a node an earlier rule of T casts
         try:
             S = v.Schema([r.build() for r in s_terms])
             S2 = v.Schema([r.build() for r in s_terms])
